@@ -1,4 +1,6 @@
-module verif/analyzer
+// the module path lies under golang.org/x/tools so that normalize.go may import the source inliner
+// golang.org/x/tools/internal/refactor/inline (as gopls, a separate module, does)
+module golang.org/x/tools/verifanalyzer
 
 go 1.23
 
